@@ -109,6 +109,7 @@ func CheckFlood(c FloodCase) (vs hx.Vs, classes []string, nontrivial bool) {
 	defer s.Close()
 	rejected, accepted := 0, 0
 	var wantSQL []string // numbers of the accepted statements in order
+	pendingSQL := ""     // number of the admitted statement a deadline hit (inconclusive run), if any
 	for i, kind := range c.Steps {
 		sql, _ := floodSQL(kind, i)
 		var rep *pgsess.Reply
@@ -132,6 +133,9 @@ func CheckFlood(c FloodCase) (vs hx.Vs, classes []string, nontrivial bool) {
 				// a deadline under this load is inconclusive (wedged sessions are TestSessions' subject, against a quiet database)
 				R.Note("TestFirewallUnderDatabaseTraffic: inconclusive: no reply within 10 s to statement %d of %d (%s)", i, len(c.Steps), proto)
 				classes = append(classes, "inconclusive:deadline")
+				if kind == 1 || kind == 3 {
+					pendingSQL = fmt.Sprint(floodBase + i) // admitted statement without an answer in time: it may or may not have reached the database
+				}
 				break
 			}
 			pe := s.ProxyErrors()
@@ -178,6 +182,9 @@ func CheckFlood(c FloodCase) (vs hx.Vs, classes []string, nontrivial bool) {
 		} else {
 			gotSQL = append(gotSQL, fmt.Sprintf("?(%.60s)", r.SQL))
 		}
+	}
+	if pendingSQL != "" && len(gotSQL) == len(wantSQL)+1 && gotSQL[len(gotSQL)-1] == pendingSQL {
+		gotSQL = gotSQL[:len(gotSQL)-1] // the statement whose answer did not arrive within the deadline was forwarded: fine either way
 	}
 	if len(vs) == 0 && strings.Join(gotSQL, ",") != strings.Join(wantSQL, ",") {
 		vs.Add("accepted-statements-at-database:under-database-traffic", "the database received the statements numbered %v, the accepted statements in order are %v", gotSQL, wantSQL)
